@@ -33,6 +33,7 @@ CONSTANTS
   TrackWire,     \* keep the eavesdropper's history (needed by NoRepeatOnLinks / replayed destroys)
   NodeTeardown,  \* TRUE: relays / exits may tear a circuit down on their own initiative
   MayVanish,     \* TRUE: nodes may disappear (C09: abandoned circuits)
+  SweepRelays,   \* TRUE: do_remove also reclaims inactive relay entries (the code); FALSE: negative control
   Aead,          \* TRUE: a layer only comes off if it authenticates (ChaCha20-Poly1305); FALSE: negative control
   CheckIdent,    \* TRUE: an answer must carry the identifier of the outstanding request (the code); FALSE: negative control
   AutoTimers     \* TRUE: sweeps/pings are driven by sweepAt/pingAt (model checking); FALSE: any time (trace validation)
@@ -544,7 +545,7 @@ Sweep(n) ==
   /\ AutoTimers => now = sweepAt[n]
   /\ LET deadC == {c \in DOMAIN circ[n] : (CState(circ[n][c]) = "READY" /\ circ[n][c].act + Inactive < now)
                                             \/ (circ[n][c].born + MaxTime < now)}
-         deadR == {c \in DOMAIN relay[n] : relay[n][c].act + Inactive < now}
+         deadR == IF SweepRelays THEN {c \in DOMAIN relay[n] : relay[n][c].act + Inactive < now} ELSE {}
          deadX == {c \in DOMAIN exit[n] : exit[n][c].act + Inactive < now \/ exit[n][c].born + MaxTime < now}
      IN /\ circ' = [circ EXCEPT ![n] = [c \in DOMAIN @ |-> IF c \in deadC THEN [@[c] EXCEPT !.closing = TRUE] ELSE @[c]]]
         /\ retryC' = [retryC EXCEPT ![n] = [c \in DOMAIN @ \ deadC |-> @[c]]]
@@ -736,6 +737,13 @@ EntriesStable ==
        /\ \A c \in DOMAIN relay[n] \cap DOMAIN relay'[n] : relay'[n][c].key = relay[n][c].key /\ relay'[n][c].to = relay[n][c].to
                                                           /\ relay'[n][c].next = relay[n][c].next
        /\ \A c \in DOMAIN circ[n] \cap DOMAIN circ'[n] : IsPrefix(circ[n][c].hops, circ'[n][c].hops)]_vars
+\* a circuit id names one thing per node: a create never installs an exit socket under an id the node already uses
+\* (the only legitimate overlap is an exit entry that became a relay and is waiting for its delayed removal)
+NoShadow ==
+  \A n \in Node :
+     /\ DOMAIN circ[n] \cap DOMAIN exit[n] = {}
+     /\ DOMAIN circ[n] \cap DOMAIN relay[n] = {}
+     /\ \A c \in DOMAIN relay[n] \cap DOMAIN exit[n] : \E q \in pend : q.n = n /\ q.kind = "exit" /\ q.cid = c
 \* the node adjacent to entry (n, cid) - the only one whose destroy may remove it
 Adjacent(n, cid) ==
   IF Has(relay[n], cid) /\ Has(relay[n], relay[n][cid].to) THEN relay[n][relay[n][cid].to].next
